@@ -21,7 +21,7 @@ open Refinery Refinery.Model.StressRoute Oracle
 
 /-- `false`: the router as it is (the probe is the queued event itself); `true`: the repaired
 router (the probe is a copy).  Flip when the fix is applied to /repo. -/
-def variant : Bool := false
+def variant : Bool := true
 
 -- ---------------------------------------------------------------- printing
 
